@@ -125,6 +125,13 @@ Definition s_ml_score_ : str := [109; 108; 95; 115; 99; 111; 114; 101; 95].
 (* ------------------------------------------------------------------ *)
 Inductive fl := FFin (m : Z) (* m / 8 *) | FNaN | FPInf | FNInf.
 
+(* float(n) is exact up to 2**53; beyond, binary64 rounds, which is not
+   modelled: such conversions are outside the model *)
+Definition exact_int (n : Z) : bool := Z.abs n <=? 2 ^ 53.
+Definition exact_fl (f : fl) : bool :=
+  match f with FFin m => Z.abs m <=? 8 * 2 ^ 53 | _ => true end.
+
+
 Inductive scalar :=
 | SNone
 | SStr (s : str) | SBytes (s : str)
@@ -132,6 +139,10 @@ Inductive scalar :=
 | SNpBool (b : bool) | SNpInt (n : Z) | SNpF64 (f : fl) | SNpF32 (f : fl).
 
 Inductive dtype := DBool | DInt | DF64.
+
+(* an integer array converts to float exactly only below 2**53 *)
+Definition arr_exact (d : dtype) (l : list fl) : bool :=
+  match d with DInt => forallb exact_fl l | _ => true end.
 
 Inductive value :=
 | VS (x : scalar)
@@ -209,7 +220,9 @@ Definition parse_float (s0 : str) : res fl :=
         let finish := fun (ex : Z) =>
           let sc := ex - len fp in
           if (30 <? ex) || (ex <? -30) then Unmod
-          else if 0 <=? sc then Ok (sg (FFin (8 * mant * 10 ^ sc)))
+          else if 0 <=? sc then
+                 let r := FFin (8 * mant * 10 ^ sc) in
+                 if exact_fl r then Ok (sg r) else Unmod
           else let p := 10 ^ (- sc) in
                if (8 * mant) mod p =? 0 then Ok (sg (FFin (8 * mant / p)))
                else Unmod in
@@ -275,19 +288,20 @@ Definition repr_bytes (s : str) : res str :=
 Definition fl_of_bool (b : bool) : fl := FFin (if b then 8 else 0).
 Definition fl_of_int (n : Z) : fl := FFin (8 * n).
 
+
 Definition py_float_scalar (x : scalar) : res fl :=
   match x with
   | SNone => Raise EType
   | SStr s | SBytes s => parse_float s
   | SBool b | SNpBool b => Ok (fl_of_bool b)
-  | SInt n | SNpInt n => Ok (fl_of_int n)
+  | SInt n | SNpInt n => if exact_int n then Ok (fl_of_int n) else Unmod
   | SFloat f | SNpF64 f | SNpF32 f => Ok f
   end.
 
 Definition py_float (v : value) : res fl :=
   match v with
   | VS x => py_float_scalar x
-  | VArr0 _ x => Ok x
+  | VArr0 d x => if arr_exact d [x] then Ok x else Unmod
   | _ => Raise EType
   end.
 
@@ -416,7 +430,7 @@ Definition f1dfloatduple (v : value) : res value :=
   let elems :=
     match v with
     | VSeq _ l => mapM py_float_scalar l
-    | VArr1 _ l => Ok l
+    | VArr1 d l => if arr_exact d l then Ok l else Unmod
     | _ => Raise EValue          (* ndim != 1, or a ragged nesting *)
     end in
   bind elems (fun fs =>
@@ -454,9 +468,10 @@ Definition f2dfloatarray (v : value) : res value :=
               Ok (VArr2 DF64 rows))
           else Raise EValue
       end
-  | VArr0 _ x => Ok (VArr0 DF64 x)
-  | VArr1 _ l => Ok (VArr1 DF64 l)
-  | VArr2 _ l => Ok (VArr2 DF64 l)
+  | VArr0 d x => if arr_exact d [x] then Ok (VArr0 DF64 x) else Unmod
+  | VArr1 d l => if arr_exact d l then Ok (VArr1 DF64 l) else Unmod
+  | VArr2 d l => if arr_exact d (concat l) then Ok (VArr2 DF64 l)
+                 else Unmod
   end.
 
 (* --- meta_parse.lcstr, builtins str and float ------------------------- *)
